@@ -264,6 +264,29 @@ func lookupHostFn(cfg *config.Config, notFound gkm.Counter) func(string) *route.
 	}
 }
 
+// lookupAddrFn returns the lookup function of the dynamic TCP listeners. The
+// local address of the connection ('ip:port') is looked up first and the
+// route for ':port' is the fallback. Both are looked up in the same routing
+// table: the table may be replaced at any time and the answer must not be
+// made up of two tables.
+func lookupAddrFn(cfg *config.Config, notFound gkm.Counter) func(string) *route.Target {
+	pick := route.Picker[cfg.Proxy.Strategy]
+	return func(addr string) *route.Target {
+		tbl := route.GetTable()
+		t := tbl.LookupHost(addr, pick)
+		if t == nil {
+			if _, port, err := net.SplitHostPort(addr); err == nil {
+				t = tbl.LookupHost(":"+port, pick)
+			}
+		}
+		if t == nil {
+			notFound.Add(1)
+			log.Print("[WARN] No route for ", addr)
+		}
+		return t
+	}
+}
+
 // Returns a matcher function compatible with tcpproxy Matcher from github.com/inetaf/tcpproxy
 func lookupHostMatcher(cfg *config.Config) func(context.Context, string) bool {
 	// The matcher only needs to know what kind of route the host has. It must
@@ -511,7 +534,7 @@ func startServers(cfg *config.Config, stats metrics.Provider) {
 						go func() {
 							h := &tcp.DynamicProxy{
 								DialTimeout: cfg.Proxy.DialTimeout,
-								Lookup:      lookupHostFn(cfg, notFound),
+								Lookup:      lookupAddrFn(cfg, notFound),
 								Conn:        tcpConn,
 								ConnFail:    tcpConnFail,
 								Noroute:     tcpNoRoute,
